@@ -61,7 +61,9 @@ def run(tier, seed):
         cases = []
         hist = {}
         for i in range(n):
-            A, B, info, h = G.generic_programs(rng.fork(str(i)))
+            # even cases: chains of generics forwarding their comptime parameters in permuted / duplicated order,
+            # every parameter used at compile time at every level; odd cases: free-form generic functions
+            A, B, info, h = (G.forwarding_programs if i % 2 == 0 else G.generic_programs)(rng.fork(str(i)))
             # comptime value arguments that are `cref`s cannot occur in main (no own parameters)
             cases.append((A, B, info))
             for k, c in h.items():
@@ -194,7 +196,10 @@ def run(tier, seed):
                               "(integer types, integers of fixed or parameter type), nested and recursive generic calls passing parameters "
                               "through, main instantiating the last generic 1-3 ways in 1-4 interleaved calls; B = same AST with calls "
                               "redirected to substituted copies.  compared: real generic vs real copy (oracle), both vs eval_prog "
-                              "(correspondence).  non-trivial = >= 2 print events; distinct by serialised AST.  type arguments: integer types, "
+                              "(correspondence).  every other pair is a chain of 2-3 generics, each level forwarding its own comptime parameters to "
+                              "the next in permuted / duplicated order mixed with literals, and every level using each parameter at "
+                              "compile time (wrap-around fingerprint of locals of the parameter type, length of a local `[n]u8`) and "
+                              "printing its run-time copy.  non-trivial = >= 2 print events; distinct by serialised AST.  type arguments: integer types, "
                               "distinct integer types, and (for a type parameter used opaquely: parameters, locals, arrays, result) struct and "
                               "enum types; every third pair defines the generic functions in another file (lib.capy, #import).  NOT generated: "
                               "inline header references, varargs"
